@@ -24,6 +24,7 @@ import Hdl21Model.Drv.NameEnc
 import Hdl21Model.Drv.Orphanage
 import Hdl21Model.Drv.BundleConn
 import Hdl21Model.Drv.ModulePipe
+import Hdl21Model.Drv.ExtDecl
 open Lean
 
 /-- Line protocol: one JSON object per input line `{"prop": "C03", "op": ..., ...}`,
@@ -58,6 +59,7 @@ def dispatch (j : Json) : Except String Json := do
   | "OR" => Hdl21.Drv.Orphanage.handle op j
   | "BC" => Hdl21.Drv.BundleConn.handle op j
   | "MP" => Hdl21.Drv.ModulePipe.handle op j
+  | "XD" => Hdl21.Drv.ExtDecl.handle op j
   | "SEM" => Hdl21.Drv.Sem.handle op j
   | _ => .error s!"unknown prop {prop}"
 
